@@ -186,6 +186,28 @@ class TKA:
             req("expect", shapes == want, "expect(k): tok = get()?; Ok(tok) iff tok.kind == k", "Parser::expect has shape %s" % sorted(shapes))
         else:
             req("expect", False, "", "Parser::expect not found")
+        # the token source: lexer tokens in lexer order with the lexer's kinds and spans, lexer errors as Error
+        # tokens, then exactly one Eof token, then exhaustion (the typestate's E flag rests on "exactly one")
+        tn = P.body("<lexer::TokenIter as std::iter::Iterator>::next")
+        if tn is not None:
+            rows = set()
+            for pi in tab.paths(P, tn, to_return_only=True):
+                wr = sorted(set(canon(pi.sl.rvalue(st["rv"], bb, i)) for bb in pi.path for i, st in enumerate(tn.blocks[bb]["stmts"])
+                                if st["s"] == "assign" and [e.get("f") if isinstance(e, dict) else e for e in st["lhs"]["p"]] == ["*", "eof"]))
+                rows.add((tab.path_facts(pi), canon(pi.ret()), tuple(wr)))
+            NX, IT = "variant(Iterator::next(self.iter))", "some!(Iterator::next(self.iter))"
+            want = {(frozenset([(NX, ("Some",)), ("variant(%s.0)" % IT, ("Ok",))]), "Option::Some{0: token::Token{kind: ok!(%s.0), span: %s.1}}" % (IT, IT), ()),
+                    (frozenset([(NX, ("Some",)), ("variant(%s.0)" % IT, ("Err",))]), "Option::Some{0: token::Token{kind: TokenKind::Error{}, span: %s.1}}" % IT, ()),
+                    (frozenset([(NX, ("None",)), ("self.eof", False)]), "Option::Some{0: token::Token{kind: TokenKind::Eof{}, span: Lexer::span(self.iter)}}", ("1",)),
+                    (frozenset([(NX, ("None",)), ("self.eof", True)]), "Option::None{}", ())}
+            req("TokenIter::next", rows == want, "lexer token -> Token{kind, span}; lexer error -> Error token; first exhaustion -> one Eof (eof := true); afterwards None", "TokenIter::next behaves as %s" % sorted(rows, key=str))
+            w = sorted(set(x[0].name for x in P.field_writers("lexer::TokenIter", "eof")))
+            cons = set()
+            for b_, bb_, i_, st_ in P.constructors("lexer::TokenIter"):
+                cons.add(canon(dict(P.sl(b_).rvalue(st_["rv"], bb_, i_)[3]).get("eof", ("unknown", ""))))
+            req("TokenIter.eof", w == ["<lexer::TokenIter as std::iter::Iterator>::next"] and cons == {"0"}, "eof starts false and is only set by next()", "TokenIter.eof written in %s, constructed with %s" % (w, sorted(cons)))
+        else:
+            req("TokenIter::next", False, "", "TokenIter::next not found")
         # the token iterator is touched only by the primitives and the constructor
         users = set(x[0].name for x in P.field_readers("parser::Parser", "iter")) | set(x[0].name for x in P.field_writers("parser::Parser", "iter"))
         allowed = {"parser::Parser::get", "parser::Parser::peek", "parser::Parser::peek_span", "parser::Parser::from", "parser::Parser::new"}
